@@ -108,7 +108,7 @@ Definition do_store (P : params) (t l : nat) (g : glob) : glob :=
   let c := clk g t in
   let h := hs g l in
   Glob (fupd (hs g) l (store_msg (st_mo P) t c 1 :: h)) (fupd (clk g) t (vinc c t))
-       (fupd (seen g) t (fupd (seen g t) l (S (length h)))) (cells g) (destroyed g) (gnull g) (gwin g) (grace g).
+       (fupd (seen g) t (fupd (seen g t) l (Nat.max (seen g t l) (S (length h))))) (cells g) (destroyed g) (gnull g) (gwin g) (grace g).
 
 Definition load_idx (P : params) (t ch l : nat) (g : glob) : nat :=
   pick (views P) (hs g l) (clk g t) (seen g t l) ch.
